@@ -48,6 +48,17 @@ Theorem C01_stage_no_panic :
 Proof. exact (@stage_no_panic). Qed.
 Print Assumptions C01_stage_no_panic.
 
+(* since the repair of the short-content case (fix: 4e0ddc7) the premise is not needed any more: no
+   sequence of arrivals whatsoever makes the stage panic *)
+Theorem C01_stage_never_panics :
+  forall (F : Type) (O : Fops F), Flaws O -> forall nmax, NodeLaws O nmax ->
+  forall (d0 : bool) (dec : list N -> option F) (hm_of : list N -> F) (pub : list F) (t n : Z),
+  n <= nmax -> Z.of_nat (length pub) <= t ->
+  forall (ms : list (option smsg)) (col : list (list N)),
+  run_stage O d0 dec hm_of pub t n col ms <> SPanic.
+Proof. exact (@stage_never_panics). Qed.
+Print Assumptions C01_stage_never_panics.
+
 (* liveness: once the shares collected so far plus the arriving one hold valid shares of t distinct
    members on the arriving message's content -- whatever else was collected -- the stage reports
    (if it has not already) *)
